@@ -1,8 +1,12 @@
 (* C09 - Unit conversion preserves the physical amount.
-   Statements only; proofs live in Proofs/ConvertProofs.v.  The model is Model/Convert.v
-   (src/convert/mod.rs, exact rational arithmetic); [bundled_conv] is the converter the model
-   of the builder makes from the REGENERATED Gen/UnitsToml.v; [standards] is hand-written. *)
+   Statements only; proofs live in Proofs/ConvertProofs.v and Proofs/RecipeConvertProofs.v.  The model
+   is Model/Convert.v (src/convert/mod.rs, exact rational arithmetic) and, for the recipe-level entry
+   point ScaledRecipe::convert (mod.rs 415-453), Model/RecipeConvert.v over the recipe type of
+   Model/Scale.v; [bundled_conv] is the converter the model of the builder makes from the
+   REGENERATED Gen/UnitsToml.v; [standards] is hand-written. *)
 From CL Require Import Base.StrLemmas Model.Convert Model.Standards Gen.UnitsToml Proofs.ConvertProofs.
+From CL Require Import Model.Scale Proofs.ScaleProofs Proofs.ScaleTotal Model.RecipeConvert
+  Proofs.RecipeConvertProofs.
 Open Scope Q_scope.
 
 (* the arithmetic of convert_f64 (mod.rs 720-725), for any two units with non-zero ratios *)
@@ -170,3 +174,204 @@ Example C09_example_trivial_approx :
   forall (v : Q) (cfg : frac_cfg) n,
     (fun (_ : Q) (_ : frac_cfg) => @Done (option number) None) v cfg = Done (Some n) -> num_value n == v.
 Proof. intros v cfg n H. discriminate. Qed.
+
+(* ====================================================================== ScaledRecipe::convert
+   The recipe-level entry point (mod.rs 415-453), modelled in Model/RecipeConvert.v.  A recipe is
+   ANY value of the model's recipe type (not only parsed ones); metadata and sections (steps, items)
+   are the opaque frame MF, the non-quantity fields of ingredients / cookware the frames IF / CF.
+   Vocabulary (Proofs/RecipeConvertProofs.v):
+     recipe_quantities r     the quantities the function visits, in visiting order: those of the
+                             ingredients, then of the timers, then the inline quantities
+     converted c s q q'      both units known, q numeric, amount(q') = amount(q) (both ends of a range,
+                             fraction error included), same physical quantity, the unit of q' is in the
+                             designated (best) list of system s for that physical quantity
+     fail_reason c s q e     the error q's shape decides, in the order of the code: no unit -> NoUnit;
+                             unknown unit -> UnknownUnit(key); text value -> TextValue(text); no designated
+                             unit at all for the physical quantity in s -> BestUnitNotFound
+     qconv_rel c s q q' es   es = [] and converted c s q q',  or  es = [e], q' = q and fail_reason c s q e
+     Forall3 R la lb lc      R holds position by position (the three lists have the same length) *)
+
+(* (a) frame, no hypothesis on the converter: metadata and sections, cookware, the scaling data, the
+   frame of every ingredient (name, alias, note, reference, relation, modifiers) and the timer names
+   are identical and in the same order; a quantity is present exactly where one was; there are as many
+   inline quantities as before.  Only quantity slots of ingredients, timers and inline quantities may change. *)
+Theorem C09_recipe_frame : forall approx c s (IF CF MF : Type) (r r' : recipe IF CF MF) errs,
+  recipe_convert approx c s r = Done (r', errs) ->
+  r_frame r' = r_frame r /\ r_cookware r' = r_cookware r /\ r_data r' = r_data r /\
+  map ig_frame (r_ingredients r') = map ig_frame (r_ingredients r) /\
+  map tm_name (r_timers r') = map tm_name (r_timers r) /\
+  map (has_quantity ig_quantity) (r_ingredients r') = map (has_quantity ig_quantity) (r_ingredients r) /\
+  map (has_quantity tm_quantity) (r_timers r') = map (has_quantity tm_quantity) (r_timers r) /\
+  List.length (r_inline r') = List.length (r_inline r).
+Proof. intros approx c s IF CF MF r r' errs. exact (recipe_convert_frame approx c s r r' errs). Qed.
+Print Assumptions C09_recipe_frame.
+
+(* ... and what happens in a slot is ScaledQuantity::convert(system) of the quantity that was there,
+   its error (if any) appended to the list: the returned errors are those of the failed quantities,
+   one each, in visiting order *)
+Theorem C09_recipe_is_quantity_convert : forall approx c s (IF CF MF : Type) (r r' : recipe IF CF MF) errs,
+  recipe_convert approx c s r = Done (r', errs) ->
+  exists ess, errs = List.concat ess /\
+    Forall3 (fun q q' es => exists res, convert_impl approx c q (ToBest s) = Done (q', res) /\
+                                        es = match res with Ok _ => [] | Err e => [e] end)
+            (recipe_quantities r) (recipe_quantities r') ess.
+Proof. intros approx c s IF CF MF r r' errs. exact (recipe_convert_slots approx c s r r' errs). Qed.
+Print Assumptions C09_recipe_is_quantity_convert.
+
+Section Recipes.
+  Variable approx : Q -> frac_cfg -> outcome (option number).
+  (* what C12 proves about Number::new_approx *)
+  Hypothesis approx_exact : forall v cfg n, approx v cfg = Done (Some n) -> num_value n == v.
+  Context {IF CF MF : Type}.
+
+  (* (b) + (c): every visited quantity is either converted - same physical amount, unit from the
+     target system's designated list, nothing reported - or left exactly as it was with exactly one
+     error reported, the one its shape decides; the returned list is these errors in visiting order *)
+  Theorem C09_recipe_convert : forall c s (r r' : recipe IF CF MF) errs,
+    ratios_pos c -> index_consistent c ->
+    recipe_convert approx c s r = Done (r', errs) ->
+    exists ess, errs = List.concat ess /\
+      Forall3 (qconv_rel c s) (recipe_quantities r) (recipe_quantities r') ess.
+  Proof. exact (recipe_convert_spec approx approx_exact). Qed.
+
+  (* the same, position by position *)
+  Theorem C09_recipe_each : forall c s (r r' : recipe IF CF MF) errs,
+    ratios_pos c -> index_consistent c ->
+    recipe_convert approx c s r = Done (r', errs) ->
+    List.length (recipe_quantities r') = List.length (recipe_quantities r) /\
+    exists ess, errs = List.concat ess /\ List.length ess = List.length (recipe_quantities r) /\
+      forall k q, nth_error (recipe_quantities r) k = Some q ->
+        exists q' es, nth_error (recipe_quantities r') k = Some q' /\ nth_error ess k = Some es /\
+                      qconv_rel c s q q' es.
+  Proof. exact (recipe_convert_each approx approx_exact). Qed.
+
+  (* (e) converting the converted recipe once more to the same system - every convertible quantity
+     is now in a unit of that system - reports the same errors again and every quantity still has the
+     amount it had in the ORIGINAL recipe, in a designated unit *)
+  Theorem C09_recipe_twice : forall c s (r r1 r2 : recipe IF CF MF) e1 e2,
+    ratios_pos c -> index_consistent c ->
+    recipe_convert approx c s r = Done (r1, e1) ->
+    recipe_convert approx c s r1 = Done (r2, e2) ->
+    e2 = e1 /\
+    exists ess, e1 = List.concat ess /\
+      Forall3 (qconv_rel c s) (recipe_quantities r) (recipe_quantities r2) ess.
+  Proof. exact (recipe_convert_twice approx approx_exact). Qed.
+End Recipes.
+Print Assumptions C09_recipe_convert.
+Print Assumptions C09_recipe_each.
+Print Assumptions C09_recipe_twice.
+
+(* the two cases of qconv_rel exclude each other: a quantity is converted or reported, never both *)
+Theorem C09_recipe_exclusive : forall c s q q' e, converted c s q q' -> fail_reason c s q e -> False.
+Proof. exact converted_not_fail. Qed.
+Print Assumptions C09_recipe_exclusive.
+
+(* (d) text values, unit-less values and unknown units are always in the failure case: untouched,
+   one error, which says which of the three it was (no unit is looked at first, then the unit, then
+   the value: `some%pinch` reports the unknown unit, `{some}` the missing unit) *)
+Theorem C09_recipe_untouched : forall c s q q' es,
+  (q_unit q = None \/ (exists k, q_unit q = Some k /\ get_unit_id c k = None) \/ (exists t, q_value q = VText t)) ->
+  qconv_rel c s q q' es ->
+  q' = q /\ exists e, es = [e] /\
+    (q_unit q = None -> e = ENoUnit) /\
+    (forall k, q_unit q = Some k -> get_unit_id c k = None -> e = EUnknownUnit k) /\
+    (forall k id t, q_unit q = Some k -> get_unit_id c k = Some id -> q_value q = VText t ->
+                    e = ETextValue t).
+Proof. exact qconv_inconvertible. Qed.
+Print Assumptions C09_recipe_untouched.
+
+(* (e) conversely a numeric quantity in a known unit is always converted and nothing is reported,
+   provided its physical quantity has a designated unit in the target system - whatever system its own
+   unit belongs to: a unit that is ALREADY of the target system gets no special treatment (5 dl becomes
+   500 ml, 1500 g becomes 1.5 kg), and keeps its amount like any other *)
+Theorem C09_recipe_convertible : forall c s q q' es u,
+  unit_info c q = Done (Some u) -> (forall t, q_value q <> VText t) ->
+  conversions (best c (u_pq (snd u))) s <> [] ->
+  qconv_rel c s q q' es -> es = [] /\ converted c s q q'.
+Proof. exact qconv_convertible. Qed.
+Print Assumptions C09_recipe_convertible.
+
+(* no panic: on a well-formed converter [conv_wf] (what ConverterBuilder::finish establishes, see
+   C08.v / Proofs/ScaleTotal.v) and an approximation function that returns on clamped configurations,
+   ScaledQuantity::convert(system) and ScaledRecipe::convert return for every quantity / recipe value *)
+Theorem C09_recipe_total : forall approx c,
+  (forall v cfg, cfg_ok cfg -> exists o, approx v cfg = Done o) -> conv_wf c ->
+  (forall q s, exists r, convert_impl approx c q (ToBest s) = Done r) /\
+  (forall (IF CF MF : Type) s (r : recipe IF CF MF),
+     exists r' errs, recipe_convert approx c s r = Done (r', errs)).
+Proof.
+  intros approx c Ha Hwf. split; [exact (convert_impl_best_total approx Ha c Hwf)|].
+  intros IF CF MF s r. exact (recipe_convert_total approx Ha c Hwf s r).
+Qed.
+Print Assumptions C09_recipe_total.
+
+(* no hypothesis left: the shipped unit table (regenerated Gen/UnitsToml.v through the model of the
+   builder) with the model of Number::new_approx.  Every physical quantity has designated units in
+   both systems there, so BestUnitNotFound cannot occur: exactly the text / unit-less / unknown-unit
+   quantities are reported. *)
+Theorem C09_recipe_shipped : forall (IF CF MF : Type) s (r : recipe IF CF MF),
+  (exists r' errs ess, recipe_convert new_approx bundled_conv s r = Done (r', errs) /\
+     errs = List.concat ess /\
+     Forall3 (qconv_rel bundled_conv s) (recipe_quantities r) (recipe_quantities r') ess) /\
+  (forall p s', conversions (best bundled_conv p) s' <> []).
+Proof.
+  intros IF CF MF s r. split.
+  - destruct (recipe_convert_total new_approx new_approx_total bundled_conv bundled_wf s r) as (r' & errs & H).
+    destruct (recipe_convert_spec new_approx new_approx_exact bundled_conv s r r' errs
+                bundled_ratios_pos bundled_index_consistent H) as (ess & He & Hf).
+    exists r', errs, ess. split; [exact H|]. split; [exact He|exact Hf].
+  - intros p s'. destruct p, s'; vm_compute; discriminate.
+Qed.
+Print Assumptions C09_recipe_shipped.
+
+(* the hypotheses are satisfiable and the model runs.  To metric: 5 dl (already metric, not a designated
+   unit) becomes 500 ml, 1500 g becomes 1.5 kg, `some g`, `2 pinch` and a bare 3 are reported and kept,
+   the ingredient without quantity is skipped, 2-3 cups become 473.2-709.8 ml, the cookware is not
+   visited, 90 min (time units have no system) become 1.5 h, 350 F become 176.67 C *)
+Definition qn (v : Q) (u : string) : option quantity :=
+  Some {| q_value := VNumber (Regular v); q_unit := Some (s u) |}.
+Definition ex_rc : recipe N N N :=
+  {| r_frame := 0%N;
+     r_ingredients :=
+       [ {| ig_frame := 1%N; ig_quantity := qn 5 "dl" |};
+         {| ig_frame := 2%N; ig_quantity := qn 1500 "g" |};
+         {| ig_frame := 3%N; ig_quantity := Some {| q_value := VText (s "some"); q_unit := Some (s "g") |} |};
+         {| ig_frame := 4%N; ig_quantity := qn 2 "pinch" |};
+         {| ig_frame := 5%N; ig_quantity := Some {| q_value := VNumber (Regular 3); q_unit := None |} |};
+         {| ig_frame := 6%N; ig_quantity := None |};
+         {| ig_frame := 7%N;
+            ig_quantity := Some {| q_value := VRange (Regular 2) (Regular 3); q_unit := Some (s "cup") |} |} ];
+     r_cookware := [ {| ck_frame := 8%N; ck_quantity := Some (VNumber (Regular 2)) |} ];
+     r_timers := [ {| tm_name := None; tm_quantity := qn 90 "min" |} ];
+     r_inline := [ {| q_value := VNumber (Regular 350); q_unit := Some (s "F") |} ];
+     r_data := DefaultScaling |}.
+Definition shown_q (q : quantity) : option (Q * Q) * option str :=
+  (match q_value q with
+   | VNumber n => Some (Qred (num_value n), Qred (num_value n))
+   | VRange a b => Some (Qred (num_value a), Qred (num_value b))
+   | VText _ => None
+   end, q_unit q).
+Example C09_example_recipe :
+  exists r', recipe_convert new_approx bundled_conv Metric ex_rc
+             = Done (r', [ETextValue (s "some"); EUnknownUnit (s "pinch"); ENoUnit]) /\
+    map shown_q (recipe_quantities r') =
+      [ (Some (500, 500), Some (s "ml"));
+        (Some (3 # 2, 3 # 2), Some (s "kg"));
+        (None, Some (s "g"));
+        (Some (2, 2), Some (s "pinch"));
+        (Some (3, 3), None);
+        (Some (59147059 # 125000, 177441177 # 250000), Some (s "ml"));
+        (Some (3 # 2, 3 # 2), Some (s "h"));
+        (Some (Qred ((350 + (45967 # 100)) * (55555555556 # 100000000000) - (27315 # 100)),
+               Qred ((350 + (45967 # 100)) * (55555555556 # 100000000000) - (27315 # 100))),
+         Some [176%N; 67%N]) ] /\
+    map ig_frame (r_ingredients r') = [1; 2; 3; 4; 5; 6; 7]%N /\
+    nth_error (r_ingredients r') 5 = Some {| ig_frame := 6%N; ig_quantity := None |} /\
+    r_cookware r' = r_cookware ex_rc.
+Proof. eexists. split; [vm_compute; reflexivity|]. repeat split; vm_compute; reflexivity. Qed.
+(* ... and once more: same errors, same quantities *)
+Example C09_example_recipe_twice :
+  exists r1 r2 e, recipe_convert new_approx bundled_conv Metric ex_rc = Done (r1, e) /\
+                  recipe_convert new_approx bundled_conv Metric r1 = Done (r2, e) /\
+                  map shown_q (recipe_quantities r2) = map shown_q (recipe_quantities r1).
+Proof. eexists. eexists. eexists. split; [vm_compute; reflexivity|]. split; vm_compute; reflexivity. Qed.
